@@ -391,6 +391,19 @@ func main() {
 		o.Set("lsm.compactReleasesReservation", "lsm/executor.go:doCompact", b(good), shape, "true")
 	}
 
+	// ------------------------------------------------------------ valueLog.write: rewind points are per call
+	{
+		vl := o.Load("vlog.go")
+		w := vl.Func("valueLog.write")
+		shape, local := false, false
+		if w != nil {
+			shape = true
+			local = vl.HasStmt(w.Body, "heads := make(map[uint32]kv.ValuePtr)") &&
+				vl.HasStmt(w.Body, "touched := make(map[uint32]struct{})")
+		}
+		o.Set("q.vlogScratchLocal", "vlog.go:valueLog.write (heads/touched)", b(local), shape, "true")
+	}
+
 	// ------------------------------------------------------------ Open: one worker
 	{
 		open := dbf.Func("Open")
